@@ -61,7 +61,11 @@ class PolyAffine(Transform):
         if self.glob_affine is None:
             txyz = np.array(xyz, copy=True, dtype='double', order='C')
         else:
-            txyz = apply_affine(self.glob_affine, xyz)
+            # The C routine needs a C-contiguous double array: an integer (or
+            # float32) global affine applied to points of the same type
+            # would otherwise hand it an array of that type
+            txyz = np.asarray(apply_affine(self.glob_affine, xyz),
+                              dtype='double', order='C')
         _apply_polyaffine(txyz, self.centers, self._affines, self.sigma)
         return txyz
 
